@@ -67,7 +67,7 @@ WU_LEMMAS = ("lemma_wbit", "lemma_push", "lemma_full_pending", "lemma_be_append_
              "lemma_le_append_unary", "lemma_le_shift_out", "lemma_le_top_is_unary", "lemma_zero_word", "lemma_zeros_unary")
 
 
-WB_LEMMAS = ("lemma_bit_of", "lemma_trunc_bits", "lemma_ext_bits", "lemma_or_bits", "lemma_low_mask", "lemma_shl_bits", "lemma_shl1_bits", "lemma_shr64_bits",
+WB_LEMMAS = ("lemma_clean_check", "lemma_bit_of", "lemma_trunc_bits", "lemma_ext_bits", "lemma_or_bits", "lemma_low_mask", "lemma_shl_bits", "lemma_shl1_bits", "lemma_shr64_bits",
              "lemma_top_of_field", "lemma_be_wb_easy", "lemma_be_wb_fill", "lemma_be_wb_mid", "lemma_be_wb_tail", "lemma_subrange_step", "lemma_shr_bits",
              "lemma_shr1_bits", "lemma_shr64_1_bits", "lemma_le_wb_easy", "lemma_le_wb_fill", "lemma_le_wb_mid", "lemma_le_wb_tail", "lemma_be_flush", "lemma_le_flush")
 
@@ -593,7 +593,7 @@ def _verus_writer_copy_from(prop: str) -> List[Obl]:
     return out
 
 
-CT_LEMMAS = ("lemma_sbits_add", "lemma_cast64_bits", "lemma_up_bits", "lemma_shr_bits_w", "lemma_clear_low", "lemma_ct_be_from_buffer", "lemma_ct_word",
+CT_LEMMAS = ("lemma_ct_clean", "lemma_ct_be_high_zero", "lemma_ct_le_high_zero", "lemma_word_clean", "lemma_mask64_bits", "lemma_small", "lemma_sbits_add", "lemma_cast64_bits", "lemma_up_bits", "lemma_shr_bits_w", "lemma_clear_low", "lemma_ct_be_from_buffer", "lemma_ct_word",
              "lemma_ct_be_final", "lemma_ct_le_from_buffer", "lemma_ct_le_final", "lemma_sbit_word", "lemma_shl1_bits", "lemma_shr_bits", "lemma_upcast_bits",
              "lemma_wbit_bb", "lemma_wbit_w")
 
@@ -823,6 +823,23 @@ def _c19() -> List[Obl]:
     out += _verus_rice("C19", [V_R_W, ("lemma_mask128", ""), ("lemma_masked_field", "")], feats="checks")
     out += _verus_pi("C19", [V_P_W, ("lemma_xor_top", "")], feats="checks")
     out += _verus_eg("C19", [V_G2_W, V_E_W], feats="checks")
+    # the word-level writer / copy units under the checks configuration (write_bits requires and is given clean values)
+    for w in WWORDS:
+        for el, E in ENDIANS:
+            out.append(Obl(id=f"c19.verus.checks.write_bits.{E}.{w}", prop="C19", engine="verus", target=f"writer_bits@W={w};BITS={w[1:]}:write_bits_{el}", features="checks",
+                           fns=[f"BufBitWriter<{E},_<{w}>>::write_bits (argument check never fires on a clean value)"],
+                           note="checks configuration: the assert! on the argument is a proof obligation discharged from value < 2^n"))
+            out.append(Obl(id=f"c19.verus.checks.copy_from.{E}.{w}", prop="C19", engine="verus", target=f"writer_copy_from@W={w};BITS={w[1:]}:copy_from_{el}", features="checks",
+                           fns=[f"BufBitWriter<{E},_<{w}>>::copy_from"], note="checks configuration: every write_bits call receives a clean value"))
+    for w in RWORDS:
+        n = int(w[1:])
+        bb = BBTYPE[w]
+        unit = f"reader_copy_to@W={w};N={n};BB={bb};M={2 * n};LZINC={'lz128.inc' if bb == 'u128' else 'empty.inc'}"
+        for el, E in ENDIANS:
+            out.append(Obl(id=f"c19.verus.checks.copy_to.{E}.{w}", prop="C19", engine="verus", target=f"{unit}:copy_to_{el}", features="checks",
+                           fns=[f"BufBitReader<{E},_<{w}>>::copy_to"], note="checks configuration: the clean-up masks make every write_bits argument clean; same postcondition"))
+        for l in ("lemma_ct_clean", "lemma_ct_be_high_zero", "lemma_ct_le_high_zero", "lemma_word_clean", "lemma_mask64_bits", "lemma_small"):
+            out.append(Obl(id=f"c19.verus.checks.copy_to.{l}.{w}", prop="C19", engine="verus", target=f"{unit}:{l}", features="checks", fns=[]))
     # bulk copies and byte writes under `checks`; generic copy loops under `no_copy_impls`
     for u, fn in (("copy_to_generic", "copy_to"), ("copy_from_generic", "copy_from")):
         out.append(Obl(id=f"c19.checks.generic.{fn}", prop="C19", engine="verus", target=f"{u}:{fn}", features="checks",
